@@ -410,7 +410,9 @@ where
             if buf.ends_with(LINE_FEED) {
                 buf.pop();
 
-                if buf.ends_with(CARRIAGE_RETURN) {
+                // `buf` may hold data from before this call, so a carriage return is only part
+                // of the newline if it was read here.
+                if n > 1 && buf.ends_with(CARRIAGE_RETURN) {
                     buf.pop();
                 }
             }
